@@ -46,7 +46,7 @@ def shape_args(shape, form, i):
             shape = "nested_map"   # only __type__ elements have their arguments translated
         else:
             # a nested __type__ mapping among the arguments is constructed with ITS items only
-            return ("{a: {__type__: vp.fx_translate.okf_%d, x: %d}, b: [{__type__: vp.fx_translate.okc_%d}]}" % (900 + i, i, 950 + i), (),
+            return ("{a: &t%d {__type__: vp.fx_translate.okf_%d, x: %d}, b: [{__type__: vp.fx_translate.okc_%d}]}" % (i, 900 + i, i, 950 + i), (),
                     {"a": ("Made", 900 + i, (), {"x": i}), "b": [("Made", 950 + i, (), {})]})
     if form == "tagseq":
         table = {
@@ -61,7 +61,7 @@ def shape_args(shape, form, i):
     table = {
         "scalars": ("{a: %d, b: 'x', c: 2.5, d: true, e: null}" % i, {"a": i, "b": "x", "c": 2.5, "d": True, "e": None}),
         "nested_list": ("{a: [1, [2, %d]], b: []}" % i, {"a": [1, [2, i]], "b": []}),
-        "nested_map": ("{a: {b: {c: %d}}, d: {}}" % i, {"a": {"b": {"c": i}}, "d": {}}),
+        "nested_map": ("{a: &m%d {b: {c: %d}}, d: {}}" % (i, i), {"a": {"b": {"c": i}}, "d": {}}),
         "lazy_inside": ("{a: !VLazy {k: [1, %d]}}" % i, {"a": ("lazy", (), {"k": [1, i]})}),
         "eager_inside": ("{a: !VEager [4, [%d]]}" % i, {"a": ("eager", (4, [i]), {})}),
     }
@@ -74,6 +74,7 @@ def render(case):
     rnd = random.Random(case["seed"])
     n = case["n"]
     lines, expect = ["pipeline:"], {}
+    anchors = []  # (anchor name, expected value, is a nested __type__ mapping) of earlier elements
     for i in range(1, n + 1):
         form = case["forms"][i - 1]
         shape = rnd.choice(SHAPES)
@@ -92,6 +93,21 @@ def render(case):
             else:
                 kind, fail_kw = "VFail", False
         y, a, k = shape_args(shape, form, i)
+        if form in ("tagmap", "typemap"):
+            def more(text):
+                return y[:-1] + (", " if len(y) > 2 else "") + text + "}"
+            # YAML aliases of an earlier element's argument (the SAME object at two positions;
+            # a nested __type__ mapping is translated for __type__ elements only) and merge keys
+            usable = [(name, val) for name, val, typed in anchors if form == "typemap" or not typed]
+            if usable and rnd.random() < 0.5:
+                name, val = rnd.choice(usable)
+                y, k = more("zz: *%s" % name), dict(k, zz=val)
+            if rnd.random() < 0.3:
+                y, k = more("<<: {mq: %d, mr: [%d]}" % (i, i)), dict(k, mq=i, mr=[i])
+            if "&t%d " % i in y:
+                anchors.append(("t%d" % i, ("Made", 900 + i, (), {"x": i}), True))
+            if "&m%d " % i in y:
+                anchors.append(("m%d" % i, {"b": {"c": i}}, False))
         if fail_kw:
             y = y[:-1] + (", " if len(y) > 2 else "") + "fail: true}"
             k = dict(k, fail=True)
